@@ -40,6 +40,8 @@ def evaluate(o, width, leaf):
     k = o[0]
     if k == "const" and o[1] is not None:
         return const_bits(o[1], width)
+    if k == "field" and o[2] == 0 and o[1][0] == "bin" and o[1][1].endswith("WithOverflow"):
+        return evaluate(o[1], width, leaf)
     src = leaf(o)
     if src is not None:
         name, w = src
@@ -63,13 +65,24 @@ def evaluate(o, width, leaf):
             else:
                 r = (a[n:] + [0] * n)[:w]
             return (r + [0] * width)[:width]
+        if op in ("Mul", "MulWithOverflow", "MulUnchecked", "Div") and o[3][0] == "const" and o[3][1] and (o[3][1] & (o[3][1] - 1)) == 0:
+            # multiplication / division by a power of two = shift (overflow of a checked multiply panics, it does not wrap)
+            a = evaluate(o[2], w, leaf)
+            n = o[3][1].bit_length() - 1
+            if op == "Div":
+                r = (a[n:] + [0] * n)[:w]
+            else:
+                r = ([0] * n + a)[:w]
+                if op == "MulWithOverflow" and any(x != 0 for x in a[w - n:]):
+                    r = r  # the dropped bits make the accompanying assert fire; the surviving value is still the shift
+            return (r + [0] * width)[:width]
         if op in ("BitAnd", "BitOr"):
             a, b = evaluate(o[2], w, leaf), evaluate(o[3], w, leaf)
             f = bit_and if op == "BitAnd" else bit_or
             r = [f(x, y) for x, y in zip(a, b)]
             return (r + [0] * width)[:width]
     if k == "field" and o[2] == 0 and o[1][0] == "bin" and o[1][1].endswith("WithOverflow"):
-        return ["?"] * width
+        return evaluate(o[1], width, leaf)
     return ["?"] * width
 
 
